@@ -374,3 +374,63 @@ move=> hwf hnc; case: (posnP (i_ncols I)) => [h0|hpos]; last first.
 exists [seq nth false (nth ([::], 0) [::] (r_last (rd I i))).1 (index i (active I (r_last (rd I i)))) | i <- iota 0 (nreads I)], [::], 0.
 by rewrite /dp_witness /dp_path /dp_cost /cost_of h0 /= size_map size_iota.
 Qed.
+
+(* the witness is optimal *)
+Theorem dp_witness_optimal I : wf I -> no_conflict I ->
+  exists beta tau v,
+    [/\ dp_witness I = Some (beta, tau), size beta = nreads I, size tau = i_ncols I,
+        all (fun t => t < nT I) tau
+      & [/\ cost_of I beta tau = Some v, dp_cost I = Cost (Some v) & opt_spec I = Some v]].
+Proof.
+move=> hwf hnc; have [beta [tau [v [h1 h2 h3 h4 [h5 h6]]]]] := dp_witness_achieves hwf hnc.
+exists beta, tau, v; split=> //; split=> //.
+by move: h6; rewrite (dp_cost_optimal hwf hnc) => -[].
+Qed.
+
+(* ------------------------------------------------------------------ Mendelian conflicts *)
+Lemma oaddl_none (s : seq (option nat)) : None \in s -> oaddl s = None.
+Proof.
+elim: s => [|[a|] s IH] //=; rewrite inE //= => /IH->.
+by [].
+Qed.
+
+Lemma ominl_all_none (s : seq (option nat)) : all (fun v => v == None) s -> ominl s = None.
+Proof. by elim: s => [|[a|] s IH] //= /IH->. Qed.
+
+Section Conflict.
+Variable I : inst.
+
+Lemma conflict_inP c : conflict_in (local_rows I c) = all (fun t => allowed I c t == [::]) (ts I).
+Proof.
+rewrite local_rowsE conflict_mktab.
+have hne : nseq (size (active I c)) false \in bvs (size (active I c)) by rewrite mem_bvs size_nseq.
+apply/hasP/allP => [[x _ /allP h] t ht|h].
+  move/(_ t ht): h; case e: (allowed I c t) => [|ag l] //.
+  by have := @local_cost_some I c x t; rewrite e => /(_ isT) ->.
+exists (nseq (size (active I c)) false) => //; apply/allP => t /h /eqP e.
+by rewrite /local_cost /lcost /assignment_costs -/(allowed I c t) e.
+Qed.
+
+Lemma dp_loop_conflict k c prev :
+  has (fun c' => conflict_in (local_rows I c')) (iota c k) -> dp_loop I (iota c k) prev = Conflict.
+Proof.
+elim: k c prev => [|k IH] c prev //=.
+case hc: (conflict_in (local_rows I c)) => //= hrest.
+by case: k IH hrest => [|k] IH hrest //; apply: IH.
+Qed.
+
+Theorem conflict_reported : ~~ no_conflict I -> dp_cost I = Conflict /\ opt_spec I = None.
+Proof.
+rewrite /no_conflict -has_predC => /hasP[c hc /= hnone]; move: (hc); rewrite mem_iota add0n /= => hcn.
+have hall : all (fun t => allowed I c t == [::]) (ts I).
+  by apply/allP => t ht; apply: contraR hnone => h; apply/hasP; exists t.
+split.
+  by apply: dp_loop_conflict; apply/hasP; exists c => //; rewrite conflict_inP.
+rewrite /opt_spec; apply: ominl_all_none; rewrite all_map; apply/allP => beta _ /=.
+apply/eqP/ominl_all_none; rewrite all_map; apply/allP => tau; rewrite mem_tuples => /andP[/eqP hsz /all_nthP htau] /=.
+apply/eqP/oaddl_none; apply/mapP; exists c => //.
+have ht : nth 0 tau c \in ts I by rewrite mem_iota add0n /=; apply: htau; rewrite hsz.
+move/allP: hall => /(_ _ ht) /eqP e.
+by rewrite /term /local_cost /lcost /assignment_costs -/(allowed I c _) e.
+Qed.
+End Conflict.
